@@ -151,6 +151,8 @@ structure LeafStageOK (lpn fresh : Nat → Nat) (a0 : Nat) (db : List (DbLeaf V)
   level : applyAll (lvlEnts (db.map fun l => (l.sep, lpn l.sep))) (chs o.changeset) =
     relabel0 (lvlEnts (lvlOf lpn fresh a0 o.level))
   allocs : o.allocs = a0 + (newsOf o.level).length
+  /-- `PostIoWork`: exactly the produced leaves, each with the page number it was written to -/
+  postio : ∀ pn l, (pn, l) ∈ o.postIo ↔ ∃ i, (newsOf o.level)[i]? = some l ∧ pn = fresh (a0 + i)
   /-- every key of the changeset is a 256-bit key -/
   keys_lt : ∀ c ∈ o.changeset, c.1 < 2 ^ 256
   /-- released: the pages of the overflow cells of old entries whose key is in the batch, then the pages of the old leaves
@@ -194,6 +196,93 @@ theorem dbOK_seps_asc {KB : Nat} : ∀ (db : List (DbLeaf V)), LeafUpd.DbOK KB d
       · exact Nat.le_refl _
       · have := i2 l hl b rfl
         omega
+
+theorem mem_of_lookupE {N : Type} {k : Nat} {e : TE N} : ∀ {inner : Inner N}, lookupE k inner = some e → (k, e) ∈ inner
+  | [], h => by cases h
+  | (k0, e0) :: t, h => by
+    by_cases hk : k = k0
+    · subst hk; simp [lookupE] at h; subst h; simp
+    · simp only [lookupE, hk, if_false] at h
+      exact List.mem_cons_of_mem _ (mem_of_lookupE h)
+
+/-- the nodes the tracker hands to the cache / the writer: the `insert` calls that survived, with their page numbers -/
+theorem mem_trackerInserted {N : Type} (fresh : Nat → Nat) (inner : Inner N) (hasc : InnerAsc inner) (pn : Nat) (n : N) :
+    (pn, n) ∈ trackerInserted fresh inner ↔ ∃ k p, insV inner k = some (n, p) ∧ pn = resolve fresh p := by
+  unfold trackerInserted
+  rw [List.mem_filterMap]
+  constructor
+  · rintro ⟨⟨k, e⟩, hm, he⟩
+    cases hi : e.inserted with
+    | none => simp [hi] at he
+    | some y =>
+      obtain ⟨n', p⟩ := y
+      simp only [hi, Option.map_some, Option.some.injEq, Prod.mk.injEq] at he
+      obtain ⟨rfl, rfl⟩ := he
+      exact ⟨k, p, by simp [insV, lookupE_of_mem hasc hm, hi], rfl⟩
+  · rintro ⟨k, p, hi, rfl⟩
+    unfold insV at hi
+    cases hl : lookupE k inner with
+    | none => rw [hl] at hi; cases hi
+    | some e =>
+      rw [hl] at hi
+      simp only [Option.bind_some] at hi
+      exact ⟨(k, e), mem_of_lookupE hl, by simp [hi]⟩
+
+theorem expInsL_iff {N : Type} (sepOf : N → Nat) (k : Nat) (n : N) (p : Pn) : ∀ (news : List N) (a : Nat),
+    news.Pairwise (fun x y => sepOf x < sepOf y) →
+    (expInsL a (news.map fun l => (sepOf l, l)) k = some (n, p) ↔
+      ∃ i, news[i]? = some n ∧ sepOf n = k ∧ p = .new 0 (a + i))
+  | [], _, _ => by simp [expInsL]
+  | l :: t, a, h => by
+    have h' := List.pairwise_cons.1 h
+    simp only [List.map_cons, expInsL]
+    by_cases hk : sepOf l = k
+    · have hnone : expInsL (a + 1) (t.map fun l => (sepOf l, l)) k = none := expInsL_none (by
+        intro x hx e
+        obtain ⟨y, hy, rfl⟩ := List.mem_map.1 hx
+        have := h'.1 y hy
+        simp only at e
+        omega)
+      rw [hnone]
+      simp only [hk, if_true, Option.some.injEq, Prod.mk.injEq]
+      constructor
+      · rintro ⟨rfl, rfl⟩
+        exact ⟨0, by simp, hk, by simp⟩
+      · rintro ⟨i, hi, hs, rfl⟩
+        cases i with
+        | zero => simp at hi; exact ⟨hi, by simp⟩
+        | succ j =>
+          simp only [List.getElem?_cons_succ] at hi
+          have := h'.1 n (List.mem_of_getElem? hi)
+          omega
+    · have ih := expInsL_iff sepOf k n p t (a + 1) h'.2
+      cases he : expInsL (a + 1) (t.map fun l => (sepOf l, l)) k with
+      | none =>
+        rw [he] at ih
+        simp only [hk, if_false]
+        constructor
+        · intro h0; cases h0
+        · rintro ⟨i, hi, hs, rfl⟩
+          cases i with
+          | zero => simp at hi; subst hi; exact absurd hs hk
+          | succ j =>
+            simp only [List.getElem?_cons_succ] at hi
+            have := ih.2 ⟨j, hi, hs, by congr 1; omega⟩
+            cases this
+      | some y =>
+        rw [he] at ih
+        simp only [Option.some.injEq]
+        constructor
+        · intro h0
+          obtain ⟨j, hj, hs, hp⟩ := ih.1 (by rw [h0])
+          exact ⟨j + 1, by simpa using hj, hs, by rw [hp]; congr 1; omega⟩
+        · rintro ⟨i, hi, hs, rfl⟩
+          cases i with
+          | zero => simp at hi; subst hi; exact absurd hs hk
+          | succ j =>
+            simp only [List.getElem?_cons_succ] at hi
+            have := ih.2 ⟨j, hi, hs, by congr 1; omega⟩
+            simpa using this
 
 theorem newAt_some {fresh : Nat → Nat} {k p : Nat} : ∀ {news : List (Leaf V)} {a : Nat}, newAt fresh a news k = some p →
     ∃ l ∈ news, l.sep = k
@@ -289,7 +378,7 @@ theorem leafStage_spec (pagesOf : V → List Nat) (lpn fresh : Nat → Nat) (a0 
       | new l => exact (hnews l ho).1
     obtain ⟨s, hs⟩ := hchain
     obtain ⟨hoasc, _⟩ := outAsc_of_upTo out s hs hallne
-    obtain ⟨tr, hr, hiasc, hxf, hcasc, hdels, hlevel, hdelV, hinsV⟩ :=
+    obtain ⟨tr, hr, hiasc, hxf, hcasc, hdels, hlevel, hdelV, hinsV, hinsFull⟩ :=
       leaf_level_change lpn fresh a0 db x hsasc hb (by rw [hxo]; exact hoasc)
     rw [hxo] at hlevel
     have hfilt := filterCs_of_asc true (trackerChanges fresh tr.inner) (Or.inl rfl) hcasc
@@ -447,7 +536,24 @@ theorem leafStage_spec (pagesOf : V → List Nat) (lpn fresh : Nat → Nat) (a0 
       · rw [← e]; exact hchkeys c0 hc0
       · obtain ⟨l, hl, rfl⟩ := List.mem_map.1 hy
         rw [← e]; exact hdbsep l hl
-    refine ⟨by rw [hcontent], by rw [erun, hlog], hoasc, hnews, holds, ⟨s, hs⟩, heasc, hlvl2, ?_, hkeys, ?_⟩
+    have hnewsasc : (newsOf x.r.out).Pairwise (fun a b => a.sep < b.sep) := by
+      have := newsOf_asc hoasc
+      rwa [← hxo, newsOf_append, newsOf_old, List.append_nil] at this
+    have hpostio : ∀ pn l, (pn, l) ∈ trackerInserted fresh tr.inner ↔
+        ∃ i, (newsOf out)[i]? = some l ∧ pn = fresh (a0 + i) := by
+      intro pn l
+      have hno : newsOf out = newsOf x.r.out := by rw [← hxo, newsOf_append, newsOf_old, List.append_nil]
+      rw [mem_trackerInserted fresh tr.inner hiasc, hno]
+      constructor
+      · rintro ⟨k, p, hi, rfl⟩
+        rw [hinsFull k] at hi
+        obtain ⟨i, h1, _, rfl⟩ := (expInsL_iff (fun l : Leaf V => l.sep) k l p _ a0 hnewsasc).1 hi
+        exact ⟨i, h1, rfl⟩
+      · rintro ⟨i, h1, rfl⟩
+        refine ⟨l.sep, .new 0 (a0 + i), ?_, rfl⟩
+        rw [hinsFull l.sep]
+        exact (expInsL_iff (fun l : Leaf V => l.sep) l.sep l _ _ a0 hnewsasc).2 ⟨i, h1, rfl, rfl⟩
+    refine ⟨by rw [hcontent], by rw [erun, hlog], hoasc, hnews, holds, ⟨s, hs⟩, heasc, hlvl2, ?_, hpostio, hkeys, ?_⟩
     · show a0 + (newsOf x.r.out).length = a0 + (newsOf out).length
       rw [← hxo, newsOf_append, newsOf_old, List.append_nil]
     · refine ⟨trackerFreed tr.inner, ?_, ?_⟩
